@@ -209,4 +209,43 @@ def check(ctx: Ctx) -> list[RuleResult]:
     else:
         r4.fail("setpoint:range-vs-field", repo.mod(S).rel, f"validated setpoints {rng} * 100 do not fit the '{val_fmt}' field (or collide with the 0/1 on-off encoding)")
     out.append(r4)
+    # ---- R5 ---------------------------------------------------------------------------
+    # Reassembly: once the fragment count matches the set being built, the received fragment is always stored in its slot (the
+    # newest copy of a fragment wins). A path that returns the old set without storing it would keep serving the old schedule
+    # after the controller's schedule was edited (same fragment count).
+    r5 = RuleResult("R5", "a received fragment is never discarded", "in _update_payload_set every path after the fragment-count test stores the fragment in its slot (or starts a new set with it)", min_instances=1)
+    ups = repo.func("ramses_rf.system.schedule.Schedule._update_payload_set")
+    cfgu = ctx.plain_cfg(ups)
+    count_tests = [t for t in cfgu.nodes if t.kind == "test" and isinstance(t.ast, ast.Compare) and len(t.ast.ops) == 1 and isinstance(t.ast.ops[0], (ast.NotEq, ast.Eq)) and "SZ_TOTAL_FRAGS" in norm(t.ast) and "payload_set" in norm(t.ast)]
+    if not count_tests:
+        raise AnalysisError("_update_payload_set: the fragment-count test was not found")
+
+    def stores_fragment(x) -> bool:
+        a = x.ast
+        if a is None or x.kind != "stmt":
+            return False
+        if isinstance(a, ast.Assign) and isinstance(a.targets[0], ast.Subscript) and norm(a.targets[0].value) == "payload_set" and norm(a.value) == "payload":
+            return True
+        # (re)starting a set with this fragment: a call of the local initialiser with the fragment
+        return any(isinstance(c, ast.Call) and isinstance(c.func, ast.Name) and c.func.id in ups.nested and any(norm(arg) == "payload" for arg in c.args) for c in ast.walk(a))
+
+    for t in count_tests:
+        r5.instances += 1
+        r5.nontrivial += 1
+        same = "false" if isinstance(t.ast.ops[0], ast.NotEq) else "true"  # the edge on which the counts agree
+        leaks = []
+        for y, lab in cfgu.succ[t.id]:
+            if lab != same:
+                continue
+            ny = cfgu.nodes[y]
+            if stores_fragment(ny):
+                continue
+            leaks += cfgu.exits_reachable_without(y, stores_fragment, skip_start_exc=False)
+        if leaks:
+            ex, path, _labs = leaks[0]
+            last = [p for p in path if p.ast is not None]
+            r5.fail(f"{ups.short}:fragment-discarded", ups.loc(last[-1].ast if last else None), "a fragment whose count matches the set being built can be dropped without being stored (the old slot content is kept): after the controller's schedule is edited, the old schedule keeps being served", [f"exit via line {last[-1].line if last else '?'}: {norm(last[-1].ast)[:60] if last else ''}"])
+        else:
+            r5.ok({"after": norm(t.ast)[:60], "every_path": "stores the fragment in its slot or restarts the set with it"})
+    out.append(r5)
     return out
